@@ -120,6 +120,25 @@ EXTRA = [
     'int a[] = { [({1;})] = 1, [(({2;}))] = 2 };',
     'int y[2] = { ({4;}), 1 };',
     'int f(int x){ switch (x) { case ({1;}): ; } do ; while (({1;})); switch (({1;})) ; ({1;}); }',
+    # coverage completion (tools/pool_coverage.py): accepted programs that reach the
+    # parser / generator branches no other pool program reached
+    "typedef char T; void f(void){ unsigned T; T = 1; } void g(int T, unsigned T2) { T = T2; }",
+    "typedef int T; void f(void){ int T; { const unsigned T; } } T x;",
+    "typedef int T; struct S { int T; }; struct Q { unsigned T; char c; } q;",
+    "struct S { _Static_assert(1, \"m\"); int a; _Static_assert(sizeof(int) > 1, \"n\"); };",
+    "struct S { struct { int x; }; union { int y; float z; }; int; const int; } s;",
+    "void f(int a[const static 3], int b[static const 3], int c[restrict static 2], int d[const]);",
+    "void f(void){ for (_Static_assert(1, \"m\"); ; ) break; }",
+    "int a[] = {1, 2, }; int b[2][2] = { {1, }, {2, 3, }, }; struct P { int x, y; } p = { .x = 1, .y = 2, };",
+    "typedef int T; void f(void){ for (int T = 0;;) if (T) break; T y; for (int T = 0;;) { break; } { T z; } }",
+    "int f(int n, ...) { return n; } static void g(const char *fmt, ...) { }",
+    "typedef int T; void f(int n){ { int T; for (int i = 0; i < 3; i++) if (i) n++; } T x; for (int j = 0; j < 2; j++) if (j) n--; }",
+    "void f(void){ _Static_assert(1, \"a\"); int x; _Static_assert(1, \"b\"); ; }",
+    "const _Atomic(int) x; _Atomic(int [3]) a; _Atomic(int (*)(void)) fp; int * _Atomic p;",
+    "int x;\n#pragma",
+    "int x;\n#pragma   \t",
+    "void f(void){ int *p; (void)sizeof (int) ; p = (int *)0; (p)[0]; ((void (*)(void))p)(); }",
+    "int f(a, b) int a; register int b; { return a + b; } int g() { return 1; } int h(void);",
     # unnamed parameters whose first specifier is a tag specifier / qualifier / typedef name
     "struct S; void f(struct S, enum E *, union U [4]);",
     "typedef int T; void g(const struct S *, T, T *, volatile T [2], struct { int m; } *);",
